@@ -1531,8 +1531,8 @@ void eval_instruction (const char *p) {
                     }
                   mbtowc (NULL, NULL, 0); /* reset conversion state */
                   /* Decrement bytes remaining and continue loop */
-                  if (char_len > 0)
-                    (sp - 1)->subtype -= (short)char_len;
+                  /* an invalid sequence (char_len < 0) consumed one byte as well */
+                  (sp - 1)->subtype -= (short)(char_len > 1 ? char_len : 1);
                   COPY_SHORT (&offset, pc);
                   pc -= offset; /* repeat loop - will check subtype at next iteration */
                   break;
